@@ -2,6 +2,10 @@ use vstd::prelude::*;
 use vstd::arithmetic::power2::*;
 verus! {
 global size_of usize == 8;
+// Unit hll_array8_merge (C03, C17): the real bodies of Array8::merge_array_same_lgk / merge_array_with_downsample against
+//   regs' == pmax(regs, src)   and   regs' == pmax(regs, fold(src, lg))   with fold(src, lg)[i] = max{ src[j] : j % 2^lg == i },
+// num_zeros recomputed (wf) and the estimator flagged out of order.  Unit hll_union uses exactly these clauses as the (opaque) contract
+// of the two methods.  Opaque: rebuild_cached_values (float kxq sums + iterator count), HipEstimator::set_out_of_order.
 
 // ================= estimator (float state; opaque) =================
 // Only the out-of-order flag is modelled here; kxq/hip accumulators are floats (C01's business).
